@@ -57,10 +57,12 @@ def main():
                 out["checks"]["_apply"] = o
             else:
                 for c in checks:
-                    cid, _, tier = c.partition(":")
-                    tier = tier or "quick"
+                    parts = c.split(":")
+                    cid = parts[0]
+                    tier = parts[1] if len(parts) > 1 and parts[1] else "quick"
+                    extra = ["--only", parts[2]] if len(parts) > 2 else []
                     t0 = time.time()
-                    rc, o = run(["./check", cid, "--tier", tier, "--no-evidence", "--repo", rw], cwd=os.environ.get("VERIF_DIR", "/verif"), timeout=7200)
+                    rc, o = run(["./check", cid, "--tier", tier, "--no-evidence", "--repo", rw] + extra, cwd=os.environ.get("VERIF_DIR", "/verif"), timeout=7200)
                     viol = [l for l in o.splitlines() if l.startswith("VIOLATION")]
                     detail = [l.strip() for l in o.splitlines() if l.startswith("  harness=")][:3]
                     inc = [l for l in o.splitlines() if l.startswith("INCONCLUSIVE") or l.startswith("ENGINE-MISMATCH")][:3]
